@@ -52,6 +52,10 @@ type c02Case struct {
 func refObj(ref string) map[string]any { return map[string]any{"$ref": ref} }
 
 // concrete object of a kind, carrying x-id and its child sites
+// every case salts its ids so that an object served from another universe (a stale cache entry)
+// is recognisable
+var c02Salt string
+
 func c02Concrete(kind string, c c02Content) map[string]any {
 	var o map[string]any
 	id := c.ID
@@ -78,7 +82,7 @@ func c02Concrete(kind string, c c02Content) map[string]any {
 	default:
 		panic("harness: c02 kind " + kind)
 	}
-	o["x-id"] = id
+	o["x-id"] = id + c02Salt
 	for _, ch := range c.Ch {
 		r := refObj(ch.Ref)
 		switch kind + ":" + ch.Site {
@@ -220,6 +224,8 @@ func c02WriteUniverse(dir string, tc *c02Case) (string, []byte) {
 		if err != nil {
 			panic(err)
 		}
+		// "<T>" in an absolute ref stands for the directory of the universe
+		b = []byte(strings.ReplaceAll(string(b), `\u003cT\u003e`, filepath.ToSlash(dir)))
 		p := filepath.Join(dir, filepath.FromSlash(f))
 		os.MkdirAll(filepath.Dir(p), 0o755)
 		if err := os.WriteFile(p, b, 0o644); err != nil {
@@ -257,25 +263,32 @@ func xidOf(v reflect.Value) string {
 	if !x.IsValid() {
 		return ""
 	}
+	raw := fmt.Sprint(x.Interface())
 	switch s := x.Interface().(type) {
 	case string:
-		return s
+		raw = s
 	case json.RawMessage:
 		var str string
 		if json.Unmarshal(s, &str) == nil {
-			return str
+			raw = str
 		}
 	}
-	return fmt.Sprint(x.Interface())
+	if c02Salt != "" {
+		if strings.HasSuffix(raw, c02Salt) {
+			return strings.TrimSuffix(raw, c02Salt)
+		}
+		return "stale:" + raw
+	}
+	return raw
 }
 
 type c02Site struct {
-	Owner string `json:"owner"`
-	Path  string `json:"path"`
-	Ref   string `json:"ref"`
-	Kind  string `json:"kind"`
-	Got   string `json:"got"`
-	Where string `json:"refpath"`
+	Owner string   `json:"owner"`
+	Path  string   `json:"path"`
+	Ref   string   `json:"ref"`
+	Kind  string   `json:"kind"`
+	Got   string   `json:"got"`
+	Where string   `json:"refpath"`
 	Segs  []string `json:"segs"`
 }
 
@@ -412,27 +425,29 @@ func c02Load(tc *c02Case, allowExternal bool) *c02Loaded {
 	res := &c02Loaded{dir: dir, reads: []any{}}
 	loader := openapi3.NewLoader()
 	loader.IsExternalRefsAllowed = allowExternal
-	loader.ReadFromURIFunc = func(l *openapi3.Loader, u *url.URL) ([]byte, error) {
-		p := u.String()
-		if u.Scheme == "" || u.Scheme == "file" {
-			p = u.Path
-			if !filepath.IsAbs(p) {
-				if wd, err := os.Getwd(); err == nil {
-					p = filepath.Join(wd, p)
+	if !strings.HasSuffix(tc.Entry, "_default") {
+		loader.ReadFromURIFunc = func(l *openapi3.Loader, u *url.URL) ([]byte, error) {
+			p := u.String()
+			if (u.Scheme == "" || u.Scheme == "file") && u.Host == "" {
+				p = u.Path
+				if !filepath.IsAbs(p) {
+					if wd, err := os.Getwd(); err == nil {
+						p = filepath.Join(wd, p)
+					}
+				}
+				p = filepath.Clean(p)
+				if rel, err := filepath.Rel(dir, p); err == nil && !strings.HasPrefix(rel, "..") {
+					p = filepath.ToSlash(rel)
 				}
 			}
-			p = filepath.Clean(p)
-			if rel, err := filepath.Rel(dir, p); err == nil && !strings.HasPrefix(rel, "..") {
-				p = filepath.ToSlash(rel)
-			}
+			res.reads = append(res.reads, p)
+			return openapi3.ReadFromFile(l, u)
 		}
-		res.reads = append(res.reads, p)
-		return openapi3.ReadFromFile(l, u)
 	}
 	switch tc.Entry {
 	case "file_abs":
 		res.doc, res.err = loader.LoadFromFile(rootPath)
-	case "file_rel":
+	case "file_rel", "file_rel_default":
 		wd, _ := os.Getwd()
 		os.Chdir(dir)
 		res.doc, res.err = loader.LoadFromFile(filepath.Join("r", "openapi.json"))
@@ -454,6 +469,7 @@ func c02Run(c *Case) []any {
 	c.Decode(&raw)
 	delete(raw, "files") // the trace spec works on the abstract universe u
 	line := map[string]any{"case": c.Idx, "c": raw}
+	c02Salt = fmt.Sprintf("~%d", c.Idx)
 	var ld *c02Loaded
 	p, msg := guard(func() { ld = c02Load(&tc, tc.Allow) })
 	if ld != nil {
@@ -479,6 +495,7 @@ func c02Run(c *Case) []any {
 	out := []any{}
 	for _, s := range sites {
 		s.Where = strings.ReplaceAll(s.Where, ld.dir, "<T>")
+		s.Ref = strings.ReplaceAll(s.Ref, filepath.ToSlash(ld.dir), "<T>")
 		s.Segs = pathSegs(s.Path)
 		out = append(out, s)
 	}
@@ -495,10 +512,12 @@ func c02Run(c *Case) []any {
 }
 
 func init() {
-	drivers["C02"] = &Driver{Run: c02Run, Abnormal: func(c *Case, kind string) []any {
+	d := &Driver{Run: c02Run, Abnormal: func(c *Case, kind string) []any {
 		var raw map[string]any
 		c.Decode(&raw)
 		delete(raw, "files")
 		return []any{map[string]any{"case": c.Idx, "c": raw, "load": kind, "sites": []any{}, "reads": []any{}}}
 	}}
+	drivers["C02"] = d
+	drivers["C11"] = d
 }
